@@ -28,6 +28,13 @@ func (s c11Spec) name() string { return fmt.Sprintf("seq/%s/cap%d/d%d", s.preset
 
 func (s c11Spec) newState() eng.SeqState {
 	w := model.NewWorld(model.Config{Capacity: s.cap, Cols: []model.ColDef{{Name: "v", Kind: "int"}, {Name: "s", Kind: "string"}}})
+	// an index over v (true for every value the letters store): membership is data a
+	// previous occupant may leave behind, too
+	rule := func(r column.Reader) bool { return r.Int() > 1 }
+	if err := w.C.CreateIndex("v>1", "v", rule); err != nil {
+		panic(err)
+	}
+	w.M.Indexes = append(w.M.Indexes, &model.IndexDef{Name: "v>1", Col: "v", Pred: func(v model.Val) bool { return int64(v.N) > 1 }, Rule: rule})
 	applyPreset(w, s.preset, []model.Write{{Col: "v", V: model.Val{N: 3}}, {Col: "s", V: model.Val{S: "old"}}})
 	return &worldState{w: w, ops: s.ops, check: c11Check}
 }
@@ -35,7 +42,7 @@ func (s c11Spec) newState() eng.SeqState {
 // c11Check: full comparison plus aggregates and value filters, which read the raw
 // value arrays and would expose data left behind by a previous occupant.
 func c11Check(w *model.World) (vs []eng.Violation) {
-	vs = w.Check(model.Obs{Values: true})
+	vs = w.Check(model.Obs{Values: true, Indexes: true})
 	if w.Poisoned {
 		return vs
 	}
